@@ -432,4 +432,22 @@ theorem graph_node_output_name_witness :
       chkIdentifiersSkipGraph b = none ∧ buildGraphSkipGraph b = .ok () ∧ classifySkipGraph b = "ok" := by
   decide
 
+/-- known as the defect repaired by the fix "a node cannot declare one output name twice"
+(`@node(output_name=("a", "a"))`): the repaired constructor rejects it with the class `duplicate_output`;
+the pre-repair constructor `buildGraphDupOutputs` accepted it (the second value silently overwrote the first). -/
+theorem duplicate_output_name_witness :
+    let b : BuildInput := { nodes := [mkNode "f" .fn ["x"] ["a", "a"], mkNode "g" .fn ["a"] ["r"]] }
+    chkDistinctOutputs b = some (.duplicateOutputName "f" "a") ∧
+      buildGraph b = .error (.duplicateOutputName "f" "a") ∧ classify b = "duplicate_output" ∧
+      buildGraphDupOutputs b = .ok () := by
+  decide
+
+/-- the repair never accepts a graph the pre-repair constructor rejected -/
+theorem accepted_was_accepted_dupOutputs (b : BuildInput) (h : buildGraph b = .ok ()) :
+    buildGraphDupOutputs b = .ok () := buildGraphDupOutputs_ok_of h
+
+/-- every node of an accepted graph declares pairwise different output names -/
+theorem outputs_distinct {b : BuildInput} (w : WellFormed b) {nd : NodeD} (h : nd ∈ b.nodes) : nd.outputs.Nodup :=
+  w.distinctOutputs nd h
+
 end HG.C19s
